@@ -117,6 +117,16 @@ namespace ratio
             return *types.at(REAL_KEYWORD);
     }
 
+    // what an operand contributes to time-point arithmetic: a time-point expression as it is; any other operand (a constant, or an
+    // integer/real expression whose bounds coincide) its value - its variables belong to the linear arithmetic theory, not to the difference logic one..
+    static lin tp_lin(const lra_theory &lra_th, const arith_expr &x)
+    {
+        if (x->get_type().get_name() == TP_KEYWORD)
+            return x->l;
+        assert(lra_th.value(x->l).get_infinitesimal() == rational::ZERO);
+        return lin(lra_th.value(x->l).get_rational());
+    }
+
     CORE_EXPORT expr core::new_enum(type &tp, const std::vector<item *> &allowed_vals)
     {
         assert(allowed_vals.size() > 1);
@@ -275,22 +285,24 @@ namespace ratio
     CORE_EXPORT arith_expr core::add(const std::vector<arith_expr> &xprs) noexcept
     {
         assert(xprs.size() > 1);
+        type &tp = get_type(xprs);
         lin l;
         for (const auto &aex : xprs)
-            l += aex->l;
-        return new arith_item(*this, get_type(xprs), l);
+            l += tp.get_name() == TP_KEYWORD ? tp_lin(lra_th, aex) : aex->l;
+        return new arith_item(*this, tp, l);
     }
 
     CORE_EXPORT arith_expr core::sub(const std::vector<arith_expr> &xprs) noexcept
     {
         assert(xprs.size() > 1);
+        type &tp = get_type(xprs);
         lin l;
         for (auto it = xprs.cbegin(); it != xprs.cend(); ++it)
             if (it == xprs.cbegin())
-                l += (*it)->l;
+                l += tp.get_name() == TP_KEYWORD ? tp_lin(lra_th, *it) : (*it)->l;
             else
-                l -= (*it)->l;
-        return new arith_item(*this, get_type(xprs), l);
+                l -= tp.get_name() == TP_KEYWORD ? tp_lin(lra_th, *it) : (*it)->l;
+        return new arith_item(*this, tp, l);
     }
 
     CORE_EXPORT arith_expr core::mult(const std::vector<arith_expr> &xprs) noexcept
@@ -344,35 +356,35 @@ namespace ratio
     CORE_EXPORT bool_expr core::lt(arith_expr left, arith_expr right) noexcept
     {
         if (get_type({left, right}).get_name() == TP_KEYWORD)
-            return new bool_item(*this, rdl_th.new_lt(left->l, right->l));
+            return new bool_item(*this, rdl_th.new_lt(tp_lin(lra_th, left), tp_lin(lra_th, right)));
         else
             return new bool_item(*this, lra_th.new_lt(left->l, right->l));
     }
     CORE_EXPORT bool_expr core::leq(arith_expr left, arith_expr right) noexcept
     {
         if (get_type({left, right}).get_name() == TP_KEYWORD)
-            return new bool_item(*this, rdl_th.new_leq(left->l, right->l));
+            return new bool_item(*this, rdl_th.new_leq(tp_lin(lra_th, left), tp_lin(lra_th, right)));
         else
             return new bool_item(*this, lra_th.new_leq(left->l, right->l));
     }
     CORE_EXPORT bool_expr core::eq(arith_expr left, arith_expr right) noexcept
     {
         if (get_type({left, right}).get_name() == TP_KEYWORD)
-            return new bool_item(*this, rdl_th.new_eq(left->l, right->l));
+            return new bool_item(*this, rdl_th.new_eq(tp_lin(lra_th, left), tp_lin(lra_th, right)));
         else
             return new bool_item(*this, lra_th.new_eq(left->l, right->l));
     }
     CORE_EXPORT bool_expr core::geq(arith_expr left, arith_expr right) noexcept
     {
         if (get_type({left, right}).get_name() == TP_KEYWORD)
-            return new bool_item(*this, rdl_th.new_geq(left->l, right->l));
+            return new bool_item(*this, rdl_th.new_geq(tp_lin(lra_th, left), tp_lin(lra_th, right)));
         else
             return new bool_item(*this, lra_th.new_geq(left->l, right->l));
     }
     CORE_EXPORT bool_expr core::gt(arith_expr left, arith_expr right) noexcept
     {
         if (get_type({left, right}).get_name() == TP_KEYWORD)
-            return new bool_item(*this, rdl_th.new_gt(left->l, right->l));
+            return new bool_item(*this, rdl_th.new_gt(tp_lin(lra_th, left), tp_lin(lra_th, right)));
         else
             return new bool_item(*this, lra_th.new_gt(left->l, right->l));
     }
